@@ -2,6 +2,7 @@
 import glob
 import multiprocessing
 import os
+import re
 
 from harness import fw, types_x as tx, gen_typed as gt
 
@@ -143,7 +144,7 @@ def run(ctx):
         full_st, full_detail = an["full"]
         tv = an["typing"][0]
         ctx.count("compiler:" + full_st)
-        rule = case.rule if case is not None else None
+        rule = case.rule if case is not None else exp.get("rule")
         replay = dict(kind="module", label=label, file=name, module=text, rule=rule,
                       mutated_line=(case.line if case is not None else None),
                       compiler=full_st, detail=full_detail, replay_cmd="PYTHONPATH=/repo python -c 'see harness/types_x.compile_emb'")
@@ -153,7 +154,8 @@ def run(ctx):
         if full_st == "crash":
             viol(crash_key(full_detail, rule), "compiler raised %s in %s on %s" % (full_detail["exception"], full_detail["function"], label), replay)
         elif want_accept and full_st != "ok":
-            viol("welltyped-module-rejected", "%s rejected: %s" % (label, full_detail[:2]), replay)
+            msg = re.sub(r"'[^']*'|\d+", "_", full_detail[0][2].split("\n")[0])[:80] if full_detail else "?"
+            viol("welltyped-module-rejected:%s" % msg, "%s rejected: %s" % (label, full_detail[:2]), replay)
         elif want_reject and full_st == "ok":
             viol(KNOWN_BY_RULE.get(rule, "typecheck-accepts:%s" % rule), "ill-typed module accepted (rule %s, line %s)" % (rule, case.line if case else "?"), replay)
         elif want_reject and case is not None:
